@@ -1280,7 +1280,13 @@ func classScript(r *core.Rand, class int) ([]byte, []byte, wire.TxWitness) {
 		}
 		return append(s, byte(0x50+n), 0xae)
 	}
-	switch class % 8 {
+	switch class % 10 {
+	case 8: // 23 bytes, P2SH-shaped except for one template byte, full of sigop bytes: counts nothing when spent
+		pk := append(append([]byte{0xa9, 0x14}, bytes0xac(20)...), 0x87)
+		pk[int(r.Pick(0, 1, 22))] = byte(r.Pick(0xac, 0xad, 0xae))
+		return pushOf([]byte{0xac, 0xac}, false), pk, nil
+	case 9: // 23 bytes of CHECKSIG
+		return pushOf([]byte{0x51, 0xae}, false), bytes0xac(23), nil
 	case 0: // legacy P2PKH spend
 		return pushOf(r.Bytes(71), false), append([]byte{0x76, 0xa9, 0x14}, append(r.Bytes(20), 0x88, 0xac)...), nil
 	case 1: // P2SH multisig
@@ -1316,8 +1322,8 @@ func genRound3(g *core.Gen, r *core.Rand) {
 	// lessons 6 + 7: one transaction / view shared by many calls; every input of a different class
 	for i := 0; i < g.N(150, 1200); i++ {
 		t := &wire.MsgTx{Version: int32(r.Pick(1, 2))}
-		order := perm(r, 8)
-		nin := 2 + r.Intn(7)
+		order := perm(r, 10)
+		nin := 2 + r.Intn(9)
 		var us []string
 		for j := 0; j < nin; j++ {
 			sig, pk, wit := classScript(r, order[j])
@@ -1334,7 +1340,7 @@ func genRound3(g *core.Gen, r *core.Rand) {
 			us[nin-1] = "x"
 		}
 		for j := 0; j < 1+r.Intn(3); j++ {
-			_, pk, _ := classScript(r, r.Intn(8))
+			_, pk, _ := classScript(r, r.Intn(10))
 			t.TxOut = append(t.TxOut, &wire.TxOut{Value: int64(r.Intn(1e6)), PkScript: pk})
 		}
 		cb := r.Chance(1, 10)
